@@ -28,7 +28,7 @@ ANCHORS = ['annotations:Condition.__and__', 'annotations:Condition.__or__', 'ann
            'converters:ConditionalConverter.try_convert', 'converters:ConditionalConverter.collect_errors',
            'converters:ConditionalConverter.into_data', 'convert:_annotated_converter']
 MIN_COUNTERS = {'quick': {'checked': 40000, 'accepted': 8000, 'rejected_by_condition': 8000, 'rejected_by_inner': 2000,
-                          'predicate_raised': 2000, 'boundary_values': 5000, 'serialise_checked': 8000, 'multi_condition_annotations': 3000}}
+                          'predicate_raised': 2000, 'boundary_values': 5000, 'serialise_checked': 8000, 'multi_condition_annotations': 3000, 'same_name_condition_annotations': 300}}
 
 E = env.m_errors
 THRESH = (0, 1, 5, -3, 2.5, 10)
@@ -205,6 +205,12 @@ def run(ctx):
         inner_ty = rng.choice(INNER[fam])(rng)
         n = rng.choice((1, 1, 2, 3))
         specs = [C.with_names(gen_expr(rng, fam, rng.choice((0, 1, 2, 3)))) for _ in range(n)]
+        if fam in ('num', 'len') and rng.random() < 0.12:
+            # directed: two or three DIFFERENT predicates published under one name, side by side in one annotation
+            pool = ('even', 'small', 'always', 'never', 'truthy', 'boom') if fam == 'num' else ('truthy', 'always', 'never', 'boom')
+            lab = rng.choice(('valid', 'chk'))
+            specs = [C.with_names({'op': 'user', 'fn': fn, 'label': lab}) for fn in rng.sample(pool, rng.choice((2, 2, 3)))]
+            ctx.count('same_name_condition_annotations')
         cond_ty = Ty('cond', [inner_ty], conds=specs, stacked=rng.random() < 0.3)
         T_inner, e1 = build_type(inner_ty)
         T_cond, e2 = build_type(cond_ty)
